@@ -288,9 +288,36 @@ pub fn parse(s: &str) -> Parsed {
 }
 
 /// true when the pattern contains a date node whose output depends on sub-second time
+/// Does a strftime format mention a field finer than a second (in any padding variant)?
+pub fn subsecond_format(f: &str) -> bool {
+    let b = f.as_bytes();
+    let mut i = 0;
+    while i < b.len() {
+        if b[i] == b'%' {
+            let mut j = i + 1;
+            if j < b.len() && matches!(b[j], b'-' | b'_' | b'0') {
+                j += 1;
+            }
+            match b.get(j) {
+                Some(b'f') | Some(b'+') | Some(b'.') | Some(b'c') | Some(b'N') => return true,
+                Some(b'3') | Some(b'6') | Some(b'9') if b.get(j + 1) == Some(&b'f') => return true,
+                Some(b'%') => {
+                    i = j + 1;
+                    continue;
+                }
+                _ => {}
+            }
+            i = j + 1;
+        } else {
+            i += 1;
+        }
+    }
+    false
+}
+
 pub fn has_subsecond_date(p: &[Node]) -> bool {
     p.iter().any(|n| match n {
-        Node::Fmt { kind: Kind::Date { fmt, .. }, .. } => fmt.as_ref().map_or(true, |f| f.contains("%+") || f.contains("%.") || f.contains("%f") || f.contains("%3f") || f.contains("%6f") || f.contains("%9f") || f.contains("%c") || f.contains("%N")),
+        Node::Fmt { kind: Kind::Date { fmt, .. }, .. } => fmt.as_ref().map_or(true, |f| subsecond_format(f)),
         Node::Fmt { kind: Kind::Group(c) | Kind::Highlight(c) | Kind::Debug(c) | Kind::Release(c), .. } => has_subsecond_date(c),
         _ => false,
     })
